@@ -91,6 +91,12 @@ HISTORY_FAMILIES = {
     "history/options object re-used": dict(
         dev="bar", current=3.0, field=0.4, adaptive=True, dt=2.0 ** -8, dt_max=0.05, solve_time=0.4, k=5, guard_dt_growth=True,
         variants=[[], [dict(kind="options", how="reuse")], [dict(kind="options", how="reloaded")], [dict(kind="options", how="validate")]]),
+    # the requested output location is OCCUPIED by the file of another simulation (the run goes to a fresh name next to it): what
+    # the returned Solution shows must be this run, as at a free location
+    "history/occupied output location": dict(
+        dev="bar", current=3.0, field=0.4, adaptive=False, dt=DT, solve_time=8 * DT - DT / 2, k=2,
+        variants=[[], [dict(kind="occupy", over=dict(current=0.5, field=0.05, solve_time=4 * DT - DT / 2))],
+                  [dict(kind="occupy", over=dict(current=6.0, field=0.9, solve_time=8 * DT - DT / 2, k=4))]]),
     # a terminal polygon edited IN PLACE (points assigned, scale(inplace=True)) without re-meshing: the process that has already
     # solved on the device before the edit must give what a process gives that edits first and solves once
     "history/terminal edited in place": dict(
@@ -296,6 +302,12 @@ def child(args):
             kw["terminal_currents"] = base
     out = os.path.join(work, args["outname"])
     os.makedirs(os.path.dirname(out), exist_ok=True)
+    for n, st in enumerate(prework):                      # another simulation's file already sits at the requested location
+        if st["kind"] == "occupy":
+            b = dict(a, **st["over"])
+            other = tdgl.solve(dev, twin.options(tdgl, b, out), **twin.drive(tdgl, b))
+            if os.path.abspath(other.path) != os.path.abspath(out) or not os.path.exists(out):
+                raise RuntimeError("the requested output location was not occupied: vacuous")
     opts = twin.options(tdgl, a, out)                       # fresh options from the literals
     for n, st in enumerate(prework):                      # ... or an options OBJECT with a history, set to the same values
         if st["kind"] == "options":
@@ -553,6 +565,7 @@ def _dynamic_part(ctx, orders, deferred, started):
             if "prework" in j[1]:
                 rid += "/before:" + ("nothing" if not j[1]["prework"] else "+".join(
                     (f"mesh {st['dev']}" if st["kind"] == "mesh" else f"options object {st['how']}" if st["kind"] == "options"
+                     else "output location occupied by another run" if st["kind"] == "occupy"
                      else f"sim on {st.get('on')} psi={st['over'].get('terminal_psi')}"
                      + (" then its Solution.device" if st.get("then") else "")) for st in j[1]["prework"]))
                 if fams[label].get("guard_dt_growth") and not j[1]["prework"] and not res.get("max_dt", 0) > 1.5 * fams[label]["dt"]:
